@@ -217,7 +217,12 @@ impl FsmExecutor {
         if extension.eq_ignore_ascii_case("scxml") || extension.eq_ignore_ascii_case("xml") {
             #[cfg(feature = "Debug")]
             debug!("Loading FSM from XML {}", uri);
-            sm = scxml_reader::parse_from_uri(uri.to_string(), &self.include_paths);
+            // The reader reports illegal documents by panic. That must not unwind through the
+            // caller: for an <invoke> that is the session thread of the invoking FSM.
+            let uri_copy = uri.to_string();
+            let include_paths = self.include_paths.clone();
+            sm = std::panic::catch_unwind(move || scxml_reader::parse_from_uri(uri_copy, &include_paths))
+                .unwrap_or_else(|_| Err(format!("Failed to read '{}'", uri)));
         }
 
         #[cfg(feature = "serializer")]
@@ -273,7 +278,14 @@ impl FsmExecutor {
 
         // Use reader to parse the XML:
         #[cfg(feature = "xml")]
-        let sm = scxml_reader::parse_from_xml_with_includes(xml.to_string(), &self.include_paths);
+        // The reader reports illegal documents by panic. That must not unwind through the
+        // caller: for an <invoke> that is the session thread of the invoking FSM.
+        let sm = {
+            let xml_copy = xml.to_string();
+            let include_paths = self.include_paths.clone();
+            std::panic::catch_unwind(move || scxml_reader::parse_from_xml_with_includes(xml_copy, &include_paths))
+                .unwrap_or_else(|_| Err("Failed to read the inline document".to_string()))
+        };
         #[cfg(not(feature = "xml"))]
         let sm = Ok(Box::new(Fsm::new()));
 
